@@ -270,7 +270,9 @@ def _expand(fn, call, mode, target, uid, is_method):
     for p in params:
         arg = bound[p]
         if p in rebound:
-            same = mode == "assign" and isinstance(target, ast.Name) and isinstance(arg, ast.Name) and arg.id == target.id and ret_names == {p}
+            # x = h(x, ..): inside the helper the parameter is a private copy of the reference; the caller's x is overwritten by the
+            # result of this very statement, so letting the helper's rebinding act on x itself is unobservable
+            same = mode == "assign" and isinstance(target, ast.Name) and isinstance(arg, ast.Name) and arg.id == target.id
             if same:
                 names[p] = target.id            # x = h(x, ..) with every return returning that parameter: works on x itself
             else:
